@@ -156,6 +156,13 @@ fn one_assignment(assign: [usize; 4], cycles: usize) -> (u64, u64, Vec<Viol>, BT
                 evals += 1;
                 let got = plain_of(&read.apply(scope.real(), &real_plain(&start)));
                 let want = reference(&layer, assign, &abs, &scope, &start);
+                if start.is_empty() {
+                    // the convenience entry point is the same function on the empty environment
+                    let short = plain_of(&read.apply_to_empty(scope.real()));
+                    if short != got {
+                        viols.push((format!("apply-to-empty-differs:{}", scope_name(&scope)), format!("layer {adesc:?}, explicit env '{ename}', scope {scope:?}: apply_to_empty gives {} but apply on the empty environment gives {}", fmt_plain(&short), fmt_plain(&got)).replace(sc.path.to_str().unwrap(), "<root>"), json!({"assign": assign, "env": ename})));
+                    }
+                }
                 // record outcome shape with the scratch path normalised
                 let norm: Vec<u8> = format!("{:?}{}", scope, fmt_plain(&got)).replace(sc.path.to_str().unwrap(), "<root>").into_bytes();
                 outcomes.insert(norm);
@@ -344,7 +351,7 @@ pub fn run(args: &Args) {
     rep.cov("fixpoint_cycles_run", fix);
     rep.cov("distinct_nontrivial", outcomes.len() as u64);
     rep.cov("distinct_outcomes", outcomes.len() as u64);
-    rep.cov("rule", "all 6^4 assignments of {absent, dir, file, symlink->dir, symlink->file, dangling symlink} to bin/lib/include/pkgconfig, plus two kinds that fail to resolve with ELOOP / ENOTDIR (quick: all 4^4 over {absent, dir, ELOOP, ENOTDIR}; thorough: all 8^4) x 10 explicit envs (two with a non-empty per-process directory, three whose value is exactly the layer's own bin/lib path) on the same variables x 4 start envs (unset, set, empty, beginning and ending with the separator) x 4 query scopes, each read by the real read_from_layer_dir and compared with the reference; per assignment x explicit env, read->write cycles by 6 routes (LayerEnv, cached_layer keep+read_env/write_env, handle_layer Keep, handle_layer Update with the default impl, the last two also on a restored layer whose toml has no [types]) must leave the env directories unchanged, and read -> insert (3 entries on variables that have implicit values) -> write must add exactly the inserted entry; layer directory spellings: all 3^4 assignments over {absent, dir, link->dir} x 7 spellings of the layer path (non-UTF-8 component, trailing slash, ./.. segments, symlinked parent, space/colon/'=', a \\\\?\\ component, U+FFFD/non-ASCII) x 3 scopes x 4 start envs: the implicit value is the handed-over path joined with the sub-directory, byte for byte. distinct_nontrivial = distinct (scope, resulting environment) outcomes with the scratch path normalised");
+    rep.cov("rule", "all 6^4 assignments of {absent, dir, file, symlink->dir, symlink->file, dangling symlink} to bin/lib/include/pkgconfig, plus two kinds that fail to resolve with ELOOP / ENOTDIR (quick: all 4^4 over {absent, dir, ELOOP, ENOTDIR}; thorough: all 8^4) x 10 explicit envs (two with a non-empty per-process directory, three whose value is exactly the layer's own bin/lib path) on the same variables x 4 start envs (unset, set, empty, beginning and ending with the separator) x 4 query scopes, each read by the real read_from_layer_dir and compared with the reference (apply_to_empty must equal apply on the empty environment); per assignment x explicit env, read->write cycles by 6 routes (LayerEnv, cached_layer keep+read_env/write_env, handle_layer Keep, handle_layer Update with the default impl, the last two also on a restored layer whose toml has no [types]) must leave the env directories unchanged, and read -> insert (3 entries on variables that have implicit values) -> write must add exactly the inserted entry; layer directory spellings: all 3^4 assignments over {absent, dir, link->dir} x 7 spellings of the layer path (non-UTF-8 component, trailing slash, ./.. segments, symlinked parent, space/colon/'=', a \\\\?\\ component, U+FFFD/non-ASCII) x 3 scopes x 4 start envs: the implicit value is the handed-over path joined with the sub-directory, byte for byte. distinct_nontrivial = distinct (scope, resulting environment) outcomes with the scratch path normalised");
     rep.cov("bound", json!({"assignments": assigns.len(), "explicit_envs": 10, "start_envs": 4, "scopes": 4, "cycles": cycles, "routes": 6}));
     rep.cov("exhaustive", true);
     rep.sample(json!({"assignment": {"bin": "link->dir", "lib": "file", "include": "dir", "pkgconfig": "dangling"}, "explicit": "PATH append+delim in build", "scope": "Build", "start": "all five variables set"}));
